@@ -24,7 +24,7 @@ ASSUMPTIONS = ["input ahead of the report contains no complete look-alike report
                "tell it from the real one (such inputs are still compared model<->code)",
                "in_stream delivers characters (text stream); with a callback, the extra bytes are the preceding characters in the "
                "stream's `.encoding` - a callback combined with a stream whose encoding is None/absent/cannot encode them is "
-               "outside the quantifier (run and recorded, not tied, not judged); WITHOUT a callback the stream's encoding must not "
+               "outside what the property can say about the BYTES (not tied: the model has no encodings) but still judged weakly: the call raises, or the callback receives bytes decoding to the preceding input - never a normal return with the input silently dropped; WITHOUT a callback the stream's encoding must not "
                "matter (ValueError for preceding input, the position otherwise): judged for encoding None, absent and ascii",
                "the production path `self.t.get_location()` (window.py:316, taken only when out_stream/in_stream are the "
                "process's real stdout/stdin: `_use_blessed`) is blessed's own query code: outside the model, the tie and the "
@@ -133,7 +133,15 @@ def run_gcp(c):
         out["blocked"] = True
     except Exception as e:  # noqa: BLE001
         out["exc"] = type(e).__name__
-    out["callback"] = [b.decode("ascii" if c.get("stream") == "ascii" else "utf-8") for b in got]
+    # what the callback received: the CONCATENATION of its arguments in order (how many calls is representation)
+    raw = b"".join(got)
+    out["calls"] = len(got)
+    for enc in (("ascii",) if c.get("stream") == "ascii" else ("utf-8",)) + ("utf-8", "latin-1"):
+        try:
+            out["callback"] = [raw.decode(enc)] if got else []
+            break
+        except UnicodeDecodeError:
+            continue
     out["rest"] = w.in_stream.rest()
     out["wrote"] = w.out_stream.take()
     return out
@@ -153,11 +161,24 @@ def gcp_line(c):
 
 def gcp_oracle(c, o):
     """the property, for a case built as pre + report + post with no look-alike report in pre"""
-    if c.get("lookalike") or c.get("has_empty") or c.get("outside"):
+    if c.get("outside"):
+        # a callback and a stream whose encoding cannot turn the preceding input into bytes: the property cannot say
+        # WHICH bytes, but it still forbids losing them silently.  Either the call raises, or the callback received bytes
+        # that decode to the preceding input and position / unread remainder are right.
+        if "exc" in o:
+            return None
+        if not o["callback"]:
+            return ("returned %r although %r arrived ahead of the report and the callback was never called (the preceding "
+                    "input is lost)" % (o.get("result"), c["pre"]))
+        r, col = c["report"]
+        if o["callback"] != [c["pre"]] or o.get("result") != (r - 1, col - 1) or o["rest"] != list(c["post"]):
+            return "callback got %r for %r, returned %r, unread %r" % (o["callback"], c["pre"], o.get("result"), o["rest"])
+        return None
+    if c.get("lookalike") or c.get("has_empty"):
         return None
     r, col = c["report"]
-    if o["wrote"] != ["\x1b[6n"]:
-        return "query written as %r" % (o["wrote"],)
+    if "".join(o["wrote"]) != "\x1b[6n":            # how it is split into write() calls is representation
+        return "query written as %r" % ("".join(o["wrote"]),)
     if o["rest"] != list(c["post"]):
         return "unread remainder is %r, expected %r" % (o["rest"], list(c["post"]))
     if c["pre"] and not c["cb"]:
@@ -278,6 +299,10 @@ def prime(c_top, c_last):
     return w
 
 
+def count_queries(writes):
+    return "".join(writes).count("\x1b[6n")         # on the byte stream, not on the write() calls
+
+
 def last_of(w):
     return getattr(w, "_last_cursor_row", None)        # private: representation-level comparison only
 
@@ -290,7 +315,7 @@ def follow_up(w, row2):
     before = w.top_usable_row
     try:
         ret2 = w.get_cursor_vertical_diff()
-        return dict(ret=ret2, top=w.top_usable_row, before=before, row=row2, queries=w.out_stream.take().count("\x1b[6n"))
+        return dict(ret=ret2, top=w.top_usable_row, before=before, row=row2, queries=count_queries(w.out_stream.take()))
     except Exception as e:  # noqa: BLE001
         return dict(error=type(e).__name__)
 
@@ -357,7 +382,7 @@ def run_vdiff(c):
     except ValueError:
         out["exc"] = "ValueError"
     out.update(top=w.top_usable_row, last=last_of(w), in_diff=w.in_get_cursor_diff, another=w.another_sigwinch,
-               consumed=w.in_stream.pos, queries=w.out_stream.take().count("\x1b[6n"))
+               consumed=w.in_stream.pos, queries=count_queries(w.out_stream.take()))
     if not out.get("blocked") and not c["in_diff"]:
         # the next call, with an undisturbed report: it must be an ordinary call that accounts from the row the terminal
         # reported last (public consequence of the window's private bookkeeping)
@@ -514,8 +539,8 @@ def check(ctx):
     kinds = collections.Counter()
     for c in outside:
         kinds[gcp_impl(c).split(" ")[0]] += 1
-    ctx.note("get_cursor_position with a callback and a stream that cannot encode the preceding input (outside the "
-             "quantifier, not judged): outcomes %r" % dict(kinds))
+    ctx.note("get_cursor_position with a callback and a stream that cannot encode the preceding input (not tied; judged "
+             "weakly: raise, or hand over bytes decoding to the input - never drop it silently): outcomes %r" % dict(kinds))
     for c in gcp:
         o = outs[id(c)]
         ctx.count(dict(e=c["events"], cb=c["cb"]), nontrivial=bool(c["pre"]),
